@@ -104,8 +104,9 @@ class C36Engine(Engine):
         return ("Each run: 1-4 simulated processes construct ConditionalCoalescentTimes(n_approx) and call "
                 "add(total_tips, approximate=True) against one simulated cache directory, under a tape-chosen "
                 "interleaving (styles random/sticky/fifo), io buffer size and read chunk size, with 0-3 process "
-                "kills at tape-chosen scheduling points or byte offsets inside a raw write; then a fault-free later "
-                "run. Non-trivial = a kill fired or two processes overlapped on the cache file; distinct = distinct "
+                "kills at tape-chosen scheduling points or byte offsets inside a raw write and, for some actors, one "
+                "transient disk-full error (partial write then ENOSPC); a quarter of the runs use two table sizes in "
+                "one directory; then a fault-free later run per size. Non-trivial = a kill fired or two processes overlapped on the cache file; distinct = distinct "
                 "event-log digest. Part 'crash_point_enumeration' additionally enumerates every kill point of a "
                 "single writer for the listed (n_approx, bufsize) configurations (exhaustive for those).")
 
